@@ -332,6 +332,8 @@ class Gen:
                     return ('call', ('fun', (p, q), body), (arg,)) if r.random() < 0.5 else ('calln', ('fun', (p, q), body), ((p, arg),))
             if c2 < 0.10:
                 return ('call', ('fun', (p,), body), ())
+            if c2 < 0.18:      # a function without formal parameters: its body sees the names of the enclosing scope only
+                return ('call', ('fun', (), self.gen(kind, d - 1, env)), () if c2 < 0.165 else (arg,))
             extra = (self.num_lit(),) if c2 > 0.92 else ()
             return ('call', ('fun', (p,), body), (arg,) + extra)
         if c < 0.64:   # a context entry referring to an earlier entry, then path
